@@ -7,6 +7,8 @@
 
 mod cache;
 mod cached_store;
+// Row-level removal of copies; no longer used by the query path (see query_for_tenant)
+#[allow(dead_code)]
 mod dedup;
 mod engine;
 mod router;
@@ -190,15 +192,23 @@ impl QueryNode {
                 .await?;
             let bytes_scanned = chunks.iter().map(|chunk| chunk.size_bytes).sum::<u64>();
 
+            // While a shard is in the dual-write or backfill phase of a split, every row in
+            // its new shards is a copy of a row the old shard still holds. Reading the old
+            // shard alone returns each row once, for every projection and aggregate;
+            // removing copies from result rows cannot (distinct series share a timestamp
+            // and metric name, aggregates are computed before any result row exists).
+            let copy_shards = self.metadata.active_split_new_shards().await?;
+
             // Pin chunks to prevent GC during query execution (RAII guard unpins on drop)
-            let chunk_paths: Vec<String> = chunks.iter().map(|c| c.chunk_path.clone()).collect();
+            let chunk_paths: Vec<String> = chunks
+                .iter()
+                .map(|c| c.chunk_path.clone())
+                .filter(|path| !copy_shards.iter().any(|shard| path.contains(shard.as_str())))
+                .collect();
             let _pin_guard = self
                 .pin_registry
                 .as_ref()
                 .map(|r| r.pin(chunk_paths.clone()));
-
-            // Check if any shard is in a dual-write split phase (causes duplicate data)
-            let needs_dedup = self.metadata.has_active_split().await.unwrap_or(false);
 
             // Map metadata-selected chunks into the logical `metrics` table used by SQL.
             // Execute query with or without adaptive indexing while holding a stable
@@ -212,14 +222,7 @@ impl QueryNode {
                 df.collect().await?
             };
 
-            // Deduplicate if any shard is in dual-write phase
-            let deduped = if needs_dedup {
-                dedup::dedup_batches(results)?
-            } else {
-                results
-            };
-
-            Ok((deduped, bytes_scanned))
+            Ok((results, bytes_scanned))
         }
         .await;
 
